@@ -77,6 +77,25 @@ FILLER_OUT = " \n\t.,;()[]{}0123456789-_=+!?\"'<>|&%#@*é☃ж"     # outside [A
 FILLER_IN = "abcXYZ:/AVCNLH"                                     # inside the class (glue)
 
 
+# characters OUTSIDE [A-Za-z:/] that Unicode-aware regex features (IGNORECASE, \\w, \\b, \\d) or case mapping relate to
+# ASCII letters/digits: Kelvin sign, long s, dotless i, capital I with dot, full-width letter/colon/slash, other scripts'
+# digits and letters (word characters), ideographs, combining mark, no-break space
+SPECIAL_DELIMS = ("\u212a", "\u017f", "\u0131", "\u0130", "\uff21", "\uff1a", "\uff0f", "\u0661", "\u00df", "\u03a9",
+                  "\u57fa", "\u0301", "\u00a0", "\u2028", "_", "-", "0", "\U0001d400", "\U00011f04")
+
+
+def special_delimiter_cases():
+    """deterministic: every special delimiter before / after / on both sides of a v2 and a v3 vector"""
+    vecs = [("2", "AV:N/AC:L/Au:N/C:C/I:C/A:C"), ("3", "CVSS:3.1/AV:N/AC:L/PR:N/UI:N/S:U/C:H/I:H/A:H"),
+            ("3", "CVSS:3.0/AV:L/AC:H/PR:L/UI:R/S:C/C:L/I:N/A:N/E:P/MAV:A")]
+    out = []
+    for d in SPECIAL_DELIMS + tuple(c for lst in (gen.confusables().get(a, ()) for a in "AaKkSsIi:/3") for c in lst):
+        for ver, v in vecs:
+            for text in (d + v, v + d, d + v + d, "see " + v + d + " and", "x " + d + v + " y"):
+                out.append({"text": text, "planted": [[ver, v]]})
+    return out
+
+
 def text_strategy():
     from hypothesis import strategies as st
 
@@ -104,8 +123,8 @@ def text_strategy():
                     v = ref.build("", d, gen.ordered(set(d), V.order, draw(gen.order_seed())))
                 else:
                     v = draw(gen.valid(ver))
-                sep_l = draw(st.sampled_from((" ", "\n", "(", "", ".", "3", "é")))
-                sep_r = draw(st.sampled_from((" ", "\n", ")", "", ".", ",", "9", "☃")))
+                sep_l = draw(st.sampled_from((" ", "\n", "(", "", ".", "3", "é") + SPECIAL_DELIMS))
+                sep_r = draw(st.sampled_from((" ", "\n", ")", "", ".", ",", "9", "☃") + SPECIAL_DELIMS))
                 chunks.append(sep_l + v + sep_r)
                 planted.append([ver, v])
                 earlier.append((ver, v))
@@ -166,15 +185,20 @@ def hyp_part(n_examples, shard):
 
 def run(tier, t0):
     part = runner.hyp_shards("vf.props.c13", "hyp_part", 6400 if tier == "quick" else 320000)
+    for inp in special_delimiter_cases():
+        part.count(None, classes=("special-delimiter",))
+        part.nontrivial_count += 1
+        part.check("text", check_text, inp)
     from ..fuzz import driver
     fuzz_note = driver.campaign(part, "text", runs=160000 if tier == "quick" else 4000000)
     rule = ("texts = 1-5 chunks: filler outside / inside [A-Za-z:/], arbitrary Unicode, planted valid v2/v3 vectors (incl. "
             "minimal 26-character v2 vectors) between random delimiters, v4 vectors, near-valid vectors (<= 2 mutations), "
             "repeats of an earlier vector in the same or another spelling, vectors glued to vector-like characters, "
-            "CVSS:3.x with unsupported minor. non-trivial = text with a planted vector and a glued/near-valid/vector-like "
+            "CVSS:3.x with unsupported minor; deterministic set: every 'special' delimiter (Kelvin sign, long s, dotless i, "
+            "full-width forms, other scripts' digits/letters, ideographs, NBSP ...) before/after/around v2 and v3 vectors. non-trivial = text with a planted vector and a glued/near-valid/vector-like "
             "chunk; distinct by hash")
     return runner.finish(part, tier, t0, rule,
                          ["results compared as a set (order comes from a set and is unspecified)",
                           "completeness asserted only for planted vectors that occur delimited on both sides", fuzz_note],
                          required=["chunk:" + k for k in ("filler-out", "filler-in", "unicode", "valid23", "valid4", "near", "repeat", "respelled-repeat", "glued", "minor", "min-v2")]
-                         + ["has-delimited-vector", "has-undelimited-vector", "26-char-v2", "atheris-execs:text"])
+                         + ["has-delimited-vector", "has-undelimited-vector", "26-char-v2", "atheris-execs:text", "special-delimiter"])
